@@ -148,8 +148,15 @@ RandLeaf(ctx) ==
        IN Fwd(Pick(NsPathPool) \o <<Pick(ClassNamePool)>>, Pct(0) <= 50, hp,
               IF hp THEN Pick(NsPathPool) \o <<Pick(ClassNamePool)>> ELSE <<>>)
   ELSE IF r <= 32 THEN
-       Typedef(TN(Pick(NsPathPool) \o <<Pick(ClassNamePool)>>, [i \in 1..Pick(1..2) |-> RandTypename(1)]),
-               Pick(ClassNamePool))
+       \* mostly a typedef of a template declared earlier in this namespace (resolvable), sometimes of anything
+       LET tpls == SelectSeq(ctx.items, LAMBDA d : d.k \in {"class", "function"} /\ d.tmpl # <<>>) IN
+       IF Len(tpls) > 0 /\ Pct(0) <= 85
+       THEN LET d == tpls[Pick(1..Len(tpls))] IN
+            Typedef(TN(ctx.nspath \o <<d.name>>, [i \in 1..Len(d.tmpl) |-> RandTypename(1)]), Pick(ClassNamePool))
+       ELSE IF Pct(0) <= 25
+       THEN Typedef(TN(Pick(NsPathPool) \o <<Pick(ClassNamePool)>>, [i \in 1..Pick(1..2) |-> RandTypename(1)]),
+                    Pick(ClassNamePool))
+       ELSE Include(Pick(HeaderPool))
   ELSE IF r <= 65 THEN
        LET tm == IF Pct(0) <= 25 THEN RandTmpl(ctx, TRUE) ELSE <<>>
            c2 == WithParams(ctx, tm)
